@@ -488,10 +488,9 @@ impl MachineState {
                 let n = match n {
                     Number::Fixnum(n) => n.get_num() as usize,
                     Number::Integer(n) if usize::try_from(&*n).is_ok() => (&*n).try_into().unwrap(),
-                    _ => {
-                        self.fail = true;
-                        return Ok(());
-                    }
+                    // an index beyond usize selects no argument, but Term must still be
+                    // checked (8.5.2.3 b, d) before the call fails
+                    _ => usize::MAX,
                 };
 
                 let term = self.deref(self.registers[2]);
